@@ -59,7 +59,8 @@ Definition run_graph (s : sx) : sx := L (run_steps [] (map op_of (sx_list (sx_ar
 
 (* ---------- opcode 51: a sequence of class statements ----------
    case: (51 nnames (stmt ...)) with stmt =
-     (0 mc (name ...)) a class statement (mc = 1: the class has the metaclass OvldMC, 0: a plain class);
+     (0 mc (name ...) (order ...)) a class statement (mc = 1: the class has the metaclass OvldMC, 0: a plain class);
+                      order = for each definition of the body, in source order, the index of its name;
                       name = ((owner ...) (def ...)): for each base, in base order, the index of
                       the class in whose dictionary Python's getattr(base, name) finds the name (-1: nowhere), as
                       computed by CPython's MRO; def = (kind sig label), kind 0 plain | 1 @ovld | 2 @extend_super
@@ -84,16 +85,40 @@ Definition of_attr (g : graph) (a : attr) : sx :=
 Definition of_world (g : graph) (w : world) : sx := L (map (fun c => L (map (of_attr g) c)) w).
 Definition of_cerr (e : cerr) : sx := A (match e with EName => 1 | ENotOvld => 2 | ELocked => 3 | EOther => 4 end)%Z.
 
-(* the names of one class statement, one after the other *)
-Fixpoint class_names (mc : bool) (g : graph) (w : world) (name : nat) (specs : list sx) : cres (list attr) :=
-  match specs with
+(* __prepare__ for every name (it runs before the body) *)
+Fixpoint prepare_names (g : graph) (bases : list (list attr)) : cres (list attr) :=
+  match bases with
   | [] => COk g []
-  | sp :: r =>
-      let bases := map (lookup_attr w name) (sx_list (sx_nth 0 sp)) in
-      let body := map def_of (sx_list (sx_nth 1 sp)) in
-      cbind (if mc then cd_name g bases body else pd_name g body) (fun g1 a =>
-      cbind (class_names mc g1 w (S name) r) (fun g2 rest => COk g2 (a :: rest)))
+  | b :: r => cbind (cd_prepare g b) (fun g1 a => cbind (prepare_names g1 r) (fun g2 rest => COk g2 (a :: rest)))
   end.
+
+Fixpoint set_nth {A} (i : nat) (x : A) (l : list A) : list A :=
+  match l, i with
+  | [], _ => []
+  | _ :: r, 0 => x :: r
+  | y :: r, S i' => y :: set_nth i' x r
+  end.
+
+(* the body, definition by definition in source order ([order]: the name index of each definition), so that the
+   first failing definition is the one that is reported; names do not interact otherwise *)
+Fixpoint body_defs (mc : bool) (g : graph) (bases : list (list attr)) (curs : list attr) (defs : list (list def))
+                   (order : list nat) : cres (list attr) :=
+  match order with
+  | [] => COk g curs
+  | i :: r =>
+      match nth i defs [] with
+      | [] => body_defs mc g bases curs defs r
+      | d :: ds =>
+          cbind (if mc then cd_setitem g (nth i bases []) (nth i curs ANone) d else pd_setitem g (nth i curs ANone) d)
+                (fun g1 a => body_defs mc g1 bases (set_nth i a curs) (set_nth i ds defs) r)
+      end
+  end.
+
+Definition class_names (mc : bool) (g : graph) (w : world) (specs : list sx) (order : list nat) : cres (list attr) :=
+  let bases := map (fun p => map (lookup_attr w (fst p)) (sx_list (sx_nth 0 (snd p)))) (combine (seq 0 (length specs)) specs) in
+  let defs := map (fun sp => map def_of (sx_list (sx_nth 1 sp))) specs in
+  cbind (if mc then prepare_names g bases else COk g (map (fun _ => ANone) specs))
+        (fun g1 curs => body_defs mc g1 bases curs defs order).
 
 Fixpoint name_flags (w : world) (name : nat) (specs : list sx) : list sx :=
   match specs with
@@ -117,8 +142,9 @@ Fixpoint run_stmts (g : graph) (w : world) (stmts : list sx) : list sx :=
       | 0%Z =>
           let mc := sx_bool (sx_arg 0 st) in
           let specs := sx_list (sx_arg 1 st) in
+          let order := map sx_nat (sx_list (sx_arg 2 st)) in
           let flags := if mc then L (name_flags w 0 specs) else L [] in
-          match class_names mc g w 0 specs with
+          match class_names mc g w specs order with
           | COk g' attrs =>
               let w' := w ++ [attrs] in
               L [A 0%Z; of_world g' w'; flags] :: run_stmts g' w' r
